@@ -97,7 +97,7 @@ def run(chk, replay=None):
     import file_common
     t = 't' if chk.thorough else 'q'
     file_common.run_file_check(chk, ['c03a_' + t, 'c03c_' + t, 'c12a_' + t], [], judge=lambda r: r['step']['a'] in ('Create', 'Open'),
-                               opts={'names': 2, 'ignore_handles': True}, coverage=['Create:reject', 'Open'])
+                               opts={'names': 2, 'ignore_handles': True, 'touch_retained': True}, coverage=['Create:reject', 'Open'])
     chk.traces_validated += 0
     chk.exhaustive = False
     chk.rule = ('TLC: all interleavings of 3 contexts (start / fork / thread / create / exit), 4 ids, 4 generators: collisions found for the designs "time" (same second), '
